@@ -449,7 +449,7 @@ fn gen_cons_session(r: &mut Rng) -> Session {
         mixed.push((decls.len(), false));
         decls.push(Decl { name: "W".into(), kind: Kind::Ctor, args: vec![Sort::S, Sort::I] });
     }
-    let mut g = Gen { r, bias: Bias::C01, p: Program { decls, cmds: vec![] }, nullary, unary, binary, num, funcs: vec![], rels: vec![], nomerge: None, pending: vec![] };
+    let mut g = Gen { r, bias: Bias::C01, p: Program { decls, cmds: vec![], expect: vec![] }, nullary, unary, binary, num, funcs: vec![], rels: vec![], nomerge: None, pending: vec![], batch_mode: false };
     let n = g.r.range(3, 12);
     let mut cs = Vec::new();
     for _ in 0..n {
@@ -1260,7 +1260,7 @@ fn main() {
             }
         } else {
             let strs = |k: &str| -> Vec<String> { inp[k].as_array().map(|a| a.iter().map(|s| s.as_str().unwrap_or("").to_string()).collect()).unwrap_or_default() };
-            let s = Session { p: Program { decls: vec![], cmds: vec![] }, header: strs("header"), kinds: strs("cmds").iter().map(|_| "replay").collect(), cmds: strs("cmds"), cons_cmds: None };
+            let s = Session { p: Program { decls: vec![], cmds: vec![], expect: vec![] }, header: strs("header"), kinds: strs("cmds").iter().map(|_| "replay").collect(), cmds: strs("cmds"), cons_cmds: None };
             let facts: Vec<String> = strs("facts");
             let r = run_session(&s, &facts, true, &mut BTreeMap::new());
             if let Some(v) = r.viol {
@@ -1276,7 +1276,7 @@ fn main() {
             for pth in paths {
                 let v: serde_json::Value = serde_json::from_str(&std::fs::read_to_string(&pth).unwrap()).expect("corpus json");
                 let strs = |k: &str| -> Vec<String> { v[k].as_array().map(|a| a.iter().map(|s| s.as_str().unwrap_or("").to_string()).collect()).unwrap_or_default() };
-                let s = Session { p: Program { decls: vec![], cmds: vec![] }, header: strs("header"), kinds: strs("cmds").iter().map(|_| "corpus").collect(), cmds: strs("cmds"), cons_cmds: None };
+                let s = Session { p: Program { decls: vec![], cmds: vec![], expect: vec![] }, header: strs("header"), kinds: strs("cmds").iter().map(|_| "corpus").collect(), cmds: strs("cmds"), cons_cmds: None };
                 let facts = strs("facts");
                 let r = run_session(&s, &facts, true, &mut BTreeMap::new());
                 corpus_sessions += 1;
